@@ -154,6 +154,26 @@ class OrderVal:
         return f"<{self.name}~{'nan' if self.nan else self.rep}>"
 
 
+class NaNType:
+    """the scalar np.nan as a value of its own: it `is not None` and is truthy, unlike the None that stands for a missing *cell* of a column.
+    It becomes None (a missing cell) as soon as it is stored into a vector / column."""
+    _inst = None
+
+    def __new__(cls):
+        if cls._inst is None:
+            cls._inst = super().__new__(cls)
+        return cls._inst
+
+    def __repr__(self):
+        return "nan"
+
+    def abs_truth(self):
+        return True
+
+
+NAN = NaNType()
+
+
 class Opaque:
     def __init__(self, why, prov=()):
         self.why, self.prov = why, tuple(prov)
@@ -170,7 +190,7 @@ class Vec:
     labels = None                     # literal index labels (exact tables built with labels=): Series[int] is then a label lookup
 
     def __init__(self, vals, fresh=False, aligned=False):
-        self.v = list(vals)
+        self.v = [None if x is NAN else x for x in vals]
         self.fresh = fresh
         self.aligned = aligned        # a Series carrying the index of the table it was loaded / derived from
 
